@@ -1,6 +1,7 @@
 (* wire glue for C15.  The abstract style functions of Record.v are instantiated from a per-case
    table  [token, truthy, pre, suf, pre_tc, suf_tc, html_rule, [link]?]  supplied by the harness:
-   pre/suf = the two halves of style.render around the text for the console's colour system,
+   pre/suf = the two halves of style.render around the text for the console's colour system (of
+   style.without_color when no_color applies),
    pre_tc/suf_tc the same for export_text(styles=True) (truecolor, legacy_windows=False). *)
 From RichModel Require Import Prelude Wire Cells Segments Record SpecRecord.
 
@@ -12,7 +13,7 @@ Definition tSegs := tList tSeg.
 Definition ofSegs := ofList ofSeg.
 
 Definition tCfg (t : tree) : cfg :=
-  mkCfg (tZ (tNth t 0)) (tB (tNth t 1)) (tZ (tNth t 2)) (tB (tNth t 3)).
+  mkCfg (tZ (tNth t 0)) (tB (tNth t 1)) (tZ (tNth t 2)) (tB (tNth t 3)) (tB (tNth t 4)).
 
 Definition tOp (t : tree) : op :=
   let tag := tZ (tNth t 0) in
@@ -41,7 +42,7 @@ Definition t_esc (cs : Z) (lw : bool) (s : Z) (t : str) : str :=
   if is_nil t then t
   else
     let r := row_of tbl s in
-    if (cs =? csys c) && Bool.eqb lw (legacy c)
+    if (cs =? csys_eff c) && Bool.eqb lw (legacy c)
     then tStr (tNth r 2) ++ t ++ tStr (tNth r 3)
     else tStr (tNth r 4) ++ t ++ tStr (tNth r 5).
 Definition t_rule (s : Z) : str := tStr (tNth (row_of tbl s) 6).
@@ -89,6 +90,7 @@ Definition ops : list (string * (tree -> tree)) := [
       let r i := ret_or_nil (nth (k + i) es (mkEv [] None)) in
       ofB (wf_hist_b c h
            && exports_agree_b rendered (r 0%nat) (r 2%nat) (r 1%nat)));
+  ("spec.no_exception", fun t => ofB (tB t));   (* 0 = a console call of the history raised *)
   ("spec.balanced", fun t => ofB (balanced (tList tOp t)));
   ("visible", fun t => ofStr (visible (tStr t)));
   ("html_text", fun t => ofStr (html_text (tStr t)));
